@@ -13,3 +13,4 @@ import UF.GroupI1
 import UF.GroupI2
 import UF.GroupI3
 import UF.GroupL
+import UF.GroupK
